@@ -1,7 +1,114 @@
-(* C02 - placeholder; replaced once Constraints/ModelProofs.v exists *)
+(* C02 - verification verdicts equal the documented meaning of each constraint kind.
+   Statements only; proofs in Constraints/ModelProofs.v.  well_formed = the non-null values of a
+   column share one coarse type (number / string / date), which every pandas column does. *)
 From Coq Require Import ZArith List Bool.
-From Tdda Require Import Generated.Consts Constraints.Model.
+From Tdda Require Import Base.Sexp Base.Str Generated.Consts Constraints.Model Constraints.ModelProofs.
 Import ListNotations.
-Theorem C02_constants_pinned : gen_max_categories = 20%Z.
-Proof. reflexivity. Qed.
+Open Scope Z_scope.
+
+Theorem C02_constants_pinned :
+  gen_max_categories = 20 /\
+  gen_signs = [[112;111;115;105;116;105;118;101]; [110;111;110;45;110;101;103;97;116;105;118;101];
+               [122;101;114;111]; [110;111;110;45;112;111;115;105;116;105;118;101];
+               [110;101;103;97;116;105;118;101]; [110;117;108;108]] /\
+  gen_precisions = [[111;112;101;110]; [99;108;111;115;101;100]; [102;117;122;122;121]] /\
+  gen_epsilon_default_hex = [48;120;48;46;48;112;43;48].
+Proof. repeat split; reflexivity. Qed.
 Print Assumptions C02_constants_pinned.
+
+(* min / max: satisfied exactly when every non-null value has the bound's coarse type and meets the
+   bound - closed: >=, open: >, fuzzy: >= bound or >= the epsilon-adjusted bound; dates always closed *)
+Theorem C02_verify_min_spec : forall p c b, well_formed c ->
+  (verify p (Some c) (CMin (Some b)) = true <->
+   forall v, In v (non_nulls c) -> coarse_of v = coarse_of (b_value b) /\ sat_min b v = true).
+Proof. exact verify_min_spec_proof. Qed.
+Print Assumptions C02_verify_min_spec.
+
+Theorem C02_verify_max_spec : forall p c b, well_formed c ->
+  (verify p (Some c) (CMax (Some b)) = true <->
+   forall v, In v (non_nulls c) -> coarse_of v = coarse_of (b_value b) /\ sat_max b v = true).
+Proof. exact verify_max_spec_proof. Qed.
+Print Assumptions C02_verify_max_spec.
+
+(* a zero bound is never fuzzy *)
+Theorem C02_fuzzy_zero : forall b v, b_value b = VNum 0 -> b_fuzzed b = VNum 0 -> b_prec b = PFuzzy ->
+  sat_min b v = vleb (VNum 0) v /\ sat_max b v = vleb v (VNum 0).
+Proof. exact fuzzy_zero_proof. Qed.
+Print Assumptions C02_fuzzy_zero.
+
+Theorem C02_verify_sign_spec : forall p c s, well_formed c -> numeric c ->
+  (verify p (Some c) (CSign (Some s)) = true <-> forall v, In v (non_nulls c) -> sat_sign s v = true).
+Proof. exact verify_sign_spec_proof. Qed.
+Print Assumptions C02_verify_sign_spec.
+
+Theorem C02_verify_min_length_spec : forall p c n, c_type c = TString ->
+  (verify p (Some c) (CMinLen (Some n)) = true <-> forall v, In v (non_nulls c) -> n <= str_len v).
+Proof. exact verify_min_length_spec_proof. Qed.
+Print Assumptions C02_verify_min_length_spec.
+
+Theorem C02_verify_max_length_spec : forall p c n, c_type c = TString ->
+  (verify p (Some c) (CMaxLen (Some n)) = true <-> forall v, In v (non_nulls c) -> str_len v <= n).
+Proof. exact verify_max_length_spec_proof. Qed.
+Print Assumptions C02_verify_max_length_spec.
+
+Theorem C02_verify_max_nulls_spec : forall p c n,
+  verify p (Some c) (CMaxNulls (Some n)) = true <-> null_count c <= n.
+Proof. exact verify_max_nulls_spec_proof. Qed.
+Print Assumptions C02_verify_max_nulls_spec.
+
+Theorem C02_verify_no_duplicates_spec : forall p c,
+  verify p (Some c) (CNoDup (Some true)) = true <-> NoDupV (non_nulls c).
+Proof. exact verify_no_duplicates_spec_proof. Qed.
+Print Assumptions C02_verify_no_duplicates_spec.
+
+Theorem C02_verify_type_spec : forall p c ts,
+  verify p (Some c) (CType (Some ts)) = type_meaning (p_strict p) c ts.
+Proof. exact verify_type_spec_proof. Qed.
+Print Assumptions C02_verify_type_spec.
+
+Theorem C02_verify_rex_spec : forall p c oks,
+  verify p (Some c) (CRex (Some oks)) = (ctype_eqb (c_type c) TString && forallb (fun b => b) oks).
+Proof. exact verify_rex_spec_proof. Qed.
+Print Assumptions C02_verify_rex_spec.
+
+Theorem C02_missing_field_fails : forall p k, verify p None k = false.
+Proof. exact missing_field_fails_proof. Qed.
+Print Assumptions C02_missing_field_fails.
+
+Theorem C02_null_value_passes : forall p c k, null_valued k = true -> verify p (Some c) k = true.
+Proof. exact null_value_passes_proof. Qed.
+Print Assumptions C02_null_value_passes.
+
+(* totals = counts of the verdicts, per field and overall *)
+Theorem C02_field_totals_spec : forall p col ks,
+  let r := verify_field p col ks in
+  fr_verdicts r = map (verify p col) ks /\
+  fr_passes r = count_true (map (verify p col) ks) /\
+  fr_failures r = count_false (map (verify p col) ks) /\
+  fr_passes r + fr_failures r = Z.of_nat (length ks).
+Proof. exact field_totals_spec_proof. Qed.
+Print Assumptions C02_field_totals_spec.
+
+Theorem C02_dataset_totals_spec : forall p fields,
+  let v := verify_dataset p fields in
+  v_fields v = map (fun f => verify_field p (fst f) (snd f)) fields /\
+  v_passes v = fold_right Z.add 0 (map fr_passes (v_fields v)) /\
+  v_failures v = fold_right Z.add 0 (map fr_failures (v_fields v)).
+Proof. exact dataset_totals_spec_proof. Qed.
+Print Assumptions C02_dataset_totals_spec.
+
+(* adding a constraint (null-valued or not) changes no other verdict *)
+Theorem C02_null_constraint_irrelevant : forall p col ks1 ks2 k,
+  map (verify p col) (ks1 ++ k :: ks2) =
+  map (verify p col) ks1 ++ verify p col k :: map (verify p col) ks2.
+Proof. exact null_constraint_irrelevant_proof. Qed.
+Print Assumptions C02_null_constraint_irrelevant.
+
+(* non-vacuity: a well-formed numeric column with a fuzzy negative bound *)
+Example C02_example :
+  let c := {| c_type := TInt; c_cells := [Some (VNum (-3)); None; Some (VNum 5)] |} in
+  verify {| p_strict := false |} (Some c)
+         (CMin (Some {| b_value := VNum (-2); b_fuzzed := VNum (-3); b_prec := PFuzzy |})) = true /\
+  verify {| p_strict := false |} (Some c)
+         (CMin (Some {| b_value := VNum (-2); b_fuzzed := VNum (-3); b_prec := PClosed |})) = false.
+Proof. vm_compute. split; reflexivity. Qed.
